@@ -588,7 +588,9 @@ class Interp(object):
         self.mutations.append((op, origin, self.where(node), attr, obj))
         if op == 'setattr':
             return      # attribute stores are judged by the write-set analysis (C01), not here
-        ok = origin in ('Fresh', 'Ghost', None) and not isinstance(obj, SCell)
+        # 'ViewState': state owned by the view object itself (a cache); its mutation is justified by the rely/guarantee
+        # obligations of the contract that declares it, not by freshness
+        ok = origin in ('Fresh', 'Ghost', 'ViewState', None) and not isinstance(obj, SCell)
         self.ctx.oblige('frame: %s at line %s touches only an object created here and not yet yielded (it is %s)'
                         % (op, getattr(node, 'lineno', '?'), origin), z3.BoolVal(bool(ok)), self.where(node), 'frame')
 
@@ -811,6 +813,8 @@ class Interp(object):
         # 2. havoc
         k = smt.fresh_int('k')
         self.havoc(node, env, spec)
+        if spec.rebind is not None:
+            spec.rebind(LoopState(self, env, SInt(k)))
         base.pos = k
         ctx.assume(z3.And(k0 <= k, k <= base.n))
         self.lockstep(it, base, k, k0)
@@ -864,6 +868,8 @@ class Interp(object):
                     ctx.oblige('%s: no other source iterator has been drained before the data loop (no materialisation)' % label,
                                other.pos <= 1, self.where(node), 'pull')
         self.havoc(node, env, spec)
+        if spec.rebind is not None:
+            spec.rebind(LoopState(self, env, SInt(k)))
         ctx.assume(z3.And(k0 <= k, k <= base.n))
         base.pos = k
         self.lockstep(it, base, k, k0)
@@ -998,7 +1004,7 @@ class Interp(object):
             cur.arr = smt.fresh_arr(nm)
             cur.len = smt.fresh_int(nm + '_len')
             self.ctx.assume(cur.len >= 0)
-        elif isinstance(cur, (bi.SDict, bi.ADict, bi.ACounter)):
+        elif isinstance(cur, (bi.SDict, bi.ADict, bi.ACounter, bi.ASet)):
             cur.havoc(self, nm)
         elif isinstance(cur, PyList):
             cur.go_symbolic()
